@@ -19,14 +19,14 @@ func Layout(r *fw.Rand, p *ref.Packet, canonicalBias int) *ref.Layout {
 				l.PadBefore[i] = r.Range(1, 3)
 				if r.Chance(1, 5) {
 					// senders reserve room for elements they fill in later: whole words of padding between elements
-					l.PadBefore[i] = r.Pick(4, 5, 7, 8, 9, 12, 16, 40)
+					l.PadBefore[i] = r.Pick(4, 5, 7, 8, 9, 12, 16, 40, 255, 256, 257, 300, 1000)
 				}
 			}
 		}
 		if r.Chance(1, 3) {
 			l.PadAfter = r.Range(1, 5)
 			if r.Chance(1, 5) {
-				l.PadAfter = r.Pick(7, 8, 9, 12, 40)
+				l.PadAfter = r.Pick(7, 8, 9, 12, 40, 256, 300)
 			}
 		}
 		if p.ExtKind == ref.ExtOneByte && r.Chance(1, 4) {
